@@ -19,6 +19,12 @@
 //     (smallest distance between two points of {x} + logged probes of that variable): 24*eps*F/s, 32*eps*F/s^2;
 //   * otherwise (narrower, or five-point, which has no halving): NaN, or a finite value within the same bounds.
 //
+// Parameter precision (L1, L3, L4, L5): the function's parameters carry the default precision (0) mostly, else a coarse one
+// (1e-9 .. 2^-5); Parameter::setValue ignores a move of at most precision/2.  Requested values stay on a grid coarser than
+// the precision; the oracle uses the step actually taken (two/three-point: max(H, precision of the parameter handed over),
+// exactness does not depend on it).  Updates in which the unchanged library lets a probe be ignored are the input class of
+// the known finding C12-coarse-precision-ignored-probe (Oracle::movesHonoured).
+//
 // The wrapped function is the harness polynomial PolyFn: value and analytic derivatives are evaluated in long double
 // and rounded once, so one evaluation carries an error of <= 0.5 ulp of F = sum |coefficient * monomial|.
 //
@@ -233,11 +239,14 @@ void dist(const Box& b, double x, LD& dl, LD& du) {
 
 struct Oracle {
   const Sys& s;
-  LD absx[MAXV] = {0, 0, 0, 0}, xl[MAXV] = {0, 0, 0, 0}, H[MAXV] = {0, 0, 0, 0}, F = 0;
+  // Hdoc: the documented step (1+|x|)*h; H: the step of the first/second derivative stencils, which the two- and
+  // three-point schemes raise to the precision of the parameter handed over (a smaller move would be ignored by it)
+  LD absx[MAXV] = {0, 0, 0, 0}, xl[MAXV] = {0, 0, 0, 0}, H[MAXV] = {0, 0, 0, 0}, Hdoc[MAXV] = {0, 0, 0, 0}, F = 0;
   explicit Oracle(const Sys& sys) : s(sys) {
     for (int j = 0; j < s.cfg.P.n; ++j) {
       xl[j] = s.cur[j];
-      H[j] = (1. + std::abs(s.cur[j])) * s.cfg.h;   // the documented step
+      H[j] = Hdoc[j] = (1. + std::abs(s.cur[j])) * s.cfg.h;   // the documented step
+      if (s.cfg.scheme != 2 && static_cast<LD>(s.listPrec[static_cast<size_t>(j)]) > H[j]) H[j] = s.listPrec[static_cast<size_t>(j)];
       absx[j] = fabsl(xl[j]) + 2 * H[j];
     }
     int k[MAXV] = {0, 0, 0, 0};
@@ -293,9 +302,41 @@ struct Oracle {
   // some corner of the central cross stencil of (a,b) may leave the box (within `factor` steps of a bound)
   bool nearBound(int a, LD factor) const {
     LD dl, du; dist(s.cfg.box[a], s.cur[a], dl, du);
-    return dl <= H[a] * factor || du <= H[a] * factor;
+    return dl <= Hdoc[a] * factor || du <= Hdoc[a] * factor;
   }
+  // Parameter::setValue ignores a move of at most precision/2 from the value the parameter holds.  Smallest move the
+  // stencil of x_i makes between two consecutive positions of the function's parameter: the step (central; five-point
+  // in every geometry), half of it (one-sided fallback), step/1024 (narrow box: up to ten halvings); cross stencils
+  // (documented step, never raised) reach their first corner from a one-sided probe at half a step.
+  bool movesHonoured(int i) const {
+    LD P = s.cfg.precOf(i); if (P <= 0) return true;
+    int mode = tol(i).mode;
+    LD m = s.cfg.scheme == 2 || mode == 0 ? H[i] : mode == 3 ? H[i] / 1024 : H[i] / 2;
+    return m > P / 2 * (1 + 1e-9L);
+  }
+  bool crossMovesHonoured(int i) const { LD P = s.cfg.precOf(i); return P <= 0 || Hdoc[i] / 2 > P / 2 * (1 + 1e-9L); }
 };
+
+// known finding (proposed): a probe closer than precision/2 to the position the function's parameter holds is silently
+// ignored by Parameter::setValue and the value there is used as if it had been taken at the probe (derivatives 0 or
+// arbitrary): the five-point scheme and the cross stencils never raise the step, the two/three-point schemes raise it
+// to the precision of the parameter handed over (0 for a plain list) and halve it below that on one-sided retries.
+const char PRECISION_IGNORED[] = "C12-coarse-precision-ignored-probe";
+void excludeIgnoredProbes(vf::Ctx& c, const Sys& s, const vector<bool>& named) {
+  bool coarse = false; for (int j = 0; j < s.cfg.P.n; ++j) coarse |= s.cfg.precOf(j) > 0;
+  if (!coarse) return;
+  c.label("coarse_precision");
+  Oracle o(s); int cnt = 0;
+  for (int j : s.cfg.sel) if (named[static_cast<size_t>(j)]) ++cnt;
+  for (int j : s.cfg.sel) if (named[static_cast<size_t>(j)]) {
+    if (o.H[j] > o.Hdoc[j]) c.label("step_raised_to_precision");
+    if (!o.movesHonoured(j)) c.excludeIfKnown(PRECISION_IGNORED);
+    if (s.cfg.scheme == 1 && s.cfg.cross && cnt >= 2 && !o.crossMovesHonoured(j)) c.excludeIfKnown(PRECISION_IGNORED);
+  }
+}
+// requested values stay on a grid coarser than the precision: a value within precision/2 of the current one is itself
+// ignored by Parameter::setValue (the statement says nothing about which of the two the function then holds)
+double onGrid(double v, double cur, double prec) { return prec > 0 && v != cur && std::abs(v - cur) <= prec ? cur : v; }
 
 // ------------------------------------------------------------------ the oracle applied after an update
 // named[j]: variable j was in the list of the latest update.
@@ -317,10 +358,10 @@ void checkAfter(vf::Ctx& c, Sys& s, const vector<bool>& named, const string& whe
         continue;
       }
       LD ref = P.D2(a, 1, b, 1, o.xl, false);
-      LD tr = o.H[a] * o.H[a] / 6 * P.D2(a, 3, b, 1, o.absx, true) + o.H[b] * o.H[b] / 6 * P.D2(a, 1, b, 3, o.absx, true);
-      LD rr = 32 * EPSL * o.F / (o.H[a] * o.H[b]);
+      LD tr = o.Hdoc[a] * o.Hdoc[a] / 6 * P.D2(a, 3, b, 1, o.absx, true) + o.Hdoc[b] * o.Hdoc[b] / 6 * P.D2(a, 1, b, 3, o.absx, true);
+      LD rr = 32 * EPSL * o.F / (o.Hdoc[a] * o.Hdoc[b]);
       LD err = fabsl(static_cast<LD>(r.v) - ref);
-      if (tr == 0 && rr > 0) c.observe("cross_rounding_units(eps*F/HaHb)", static_cast<double>(err / (EPSL * o.F / (o.H[a] * o.H[b]))));
+      if (tr == 0 && rr > 0) c.observe("cross_rounding_units(eps*F/HaHb)", static_cast<double>(err / (EPSL * o.F / (o.Hdoc[a] * o.Hdoc[b]))));
       bool ok = std::isfinite(r.v) && err <= tr + rr;
       CHECK(ok, where << ": cross derivative d2f/dx" << a << "dx" << b << " = " << vf::dec(r.v) << " but analytic " << vf::dec(static_cast<double>(ref))
                       << ", error " << vf::dec(static_cast<double>(err)) << " > truncation " << vf::dec(static_cast<double>(tr)) << " + rounding " << vf::dec(static_cast<double>(rr)));
@@ -443,7 +484,11 @@ bool applyUpdate(vf::Ctx& c, Sys& s, const Upd& u, const string& where) {
     else pl.addParameter(Parameter(nm(j), u.val[q]));
     if (s.cur[j] != u.val[q]) changes = true;
   }
-  for (size_t q = 0; q < u.order.size(); ++q) s.cur[u.order[q]] = u.val[q];
+  for (size_t q = 0; q < u.order.size(); ++q) {
+    s.cur[u.order[q]] = u.val[q];
+    s.listPrec[static_cast<size_t>(u.order[q])] = (u.withCons || u.entry == 2) ? s.cfg.precOf(u.order[q]) : 0.;   // setParameterValue hands over the function's own parameter
+  }
+  excludeIgnoredProbes(c, s, named);
   s.fn->log.clear(); long raises0 = s.fn->nRaise;
   double expect = static_cast<double>(s.cfg.P.value(s.cur));
   {  // known finding: the cross-derivative loop of the three-point scheme mismanages which variables are perturbed
@@ -587,6 +632,17 @@ double genH(vf::Ctx& c, bool& setH) {
   switch (k) { case 0: return 1e-4; case 1: return 1e-2; case 2: return 1e-3; case 3: return 1e-5; case 4: return 1e-6; default: return c.logu(1e-6, 1e-2); }
 }
 
+// Parameter precision of the wrapped function's parameters: the default (0) mostly, else one coarse value carried by all
+// variables (mask 0) or by a subset.  A starved stream decodes as the default.
+void genPrec(vf::Ctx& c, Cfg& g) {
+  static const double PREC[] = {0, 1e-9, 1e-6, 0x1p-12, 0x1p-8, 0x1p-5, 1e-3};
+  size_t k = c.weighted({24, 1, 1, 1, 2, 1, 1});
+  if (k == 0) return;
+  uint64_t mask = c.below(uint64_t(1) << g.P.n);
+  g.prec.assign(static_cast<size_t>(g.P.n), 0.);
+  for (int j = 0; j < g.P.n; ++j) if (mask == 0 || ((mask >> j) & 1)) g.prec[static_cast<size_t>(j)] = PREC[k];
+}
+
 }  // namespace
 
 // ------------------------------------------------------------------ L1 histories
@@ -601,6 +657,7 @@ LAW(L1_history, RC, 30000, 1500000, 560, "a requested value within 2 steps of a 
   { vector<int> sub; for (int j = 0; j < n; ++j) if (!c.oneIn(4)) sub.push_back(j); g.sel = genOrder(c, sub); }
   g.cross = g.scheme == 1 && c.oneIn(4);
   vector<double> x0; for (int j = 0; j < n; ++j) x0.push_back(c.oneIn(3) ? genVal(c, g.box[j], g.h) : midOf(g.box[j]));
+  genPrec(c, g);
   c.desc << g.show() << " start(";
   for (int j = 0; j < n; ++j) c.desc << (j ? "," : "") << vf::dec(x0[j]);
   c.desc << ")";
@@ -621,7 +678,7 @@ LAW(L1_history, RC, 30000, 1500000, 560, "a requested value within 2 steps of a 
     else if (c.flag()) { for (int j = 0; j < n; ++j) if (c.flag()) sub.push_back(j); }   // partial, possibly empty
     else { for (int j = 0; j < n; ++j) sub.push_back(j); }
     u.order = genOrder(c, sub);
-    for (int j : u.order) u.val.push_back(c.oneIn(6) ? s.cur[j] : genVal(c, g.box[j], g.h));
+    for (int j : u.order) u.val.push_back(c.oneIn(6) ? s.cur[j] : onGrid(genVal(c, g.box[j], g.h), s.cur[j], g.precOf(j)));
     c.desc << "; " << ENTRY[u.entry] << (u.withCons ? "" : "[plain]") << "(";
     for (size_t q = 0; q < u.order.size(); ++q) c.desc << (q ? "," : "") << "x" << u.order[q] << "=" << vf::dec(u.val[q]);
     c.desc << ")";
@@ -691,6 +748,8 @@ LAW(L3_halving, RC, 3000, 100000, 64, "the truncation error at step h exceeds 10
   for (int j = 0; j < n; ++j) g.sel.push_back(j);
   g.cross = g.scheme == 1 && n >= 2 && c.flag();
   vector<double> x; for (int j = 0; j < n; ++j) x.push_back(c.flag() ? static_cast<double>(c.zig(16)) / 4 : c.real(-4, 4));
+  genPrec(c, g);   // (plain lists: the step is never raised, only honoured or not)
+  for (int j = 0; j < n; ++j) x[j] = onGrid(x[j], 0.0, g.precOf(j));
   Cfg g2 = g; g2.h = g.h / 2;
   c.desc << g.show() << " versus h/2 at (";
   for (int j = 0; j < n; ++j) c.desc << (j ? "," : "") << vf::dec(x[j]);
@@ -700,6 +759,7 @@ LAW(L3_halving, RC, 3000, 100000, 64, "the truncation error at step h exceeds 10
   ParameterList pl; for (int j = 0; j < n; ++j) pl.addParameter(Parameter(nm(j), x[j]));
   s1.cur = x; s2.cur = x;
   if (g.cross) c.excludeIfKnown("C12-cross-bookkeeping");
+  excludeIgnoredProbes(c, s1, vector<bool>(static_cast<size_t>(n), true)); excludeIgnoredProbes(c, s2, vector<bool>(static_cast<size_t>(n), true));
   s1.w->setParameters(pl); s2.w->setParameters(pl);
   Oracle o1(s1), o2(s2);
   const LD ratio = g.scheme == 0 ? 2 : g.scheme == 1 ? 4 : 16;
@@ -752,6 +812,8 @@ LAW(L4_narrow_box, RC, 1500, 50000, 64, "at least two selected variables, one of
   { vector<int> all; for (int j = 0; j < n; ++j) all.push_back(j); g.sel = genOrder(c, all); }
   vector<double> x0(n, 0.0), x(n); x0[bad] = a;
   for (int j = 0; j < n; ++j) x[j] = j == bad ? a : static_cast<double>(c.zig(16)) / 4;
+  genPrec(c, g);
+  for (int j = 0; j < n; ++j) x[j] = onGrid(x[j], x0[j], g.precOf(j));
   c.desc << g.show() << " setParameters(";
   for (int j = 0; j < n; ++j) c.desc << (j ? "," : "") << vf::dec(x[j]);
   c.desc << "), x" << bad << " cannot move";
@@ -759,6 +821,7 @@ LAW(L4_narrow_box, RC, 1500, 50000, 64, "at least two selected variables, one of
   Sys s(g, x0);
   ParameterList pl; for (int j = 0; j < n; ++j) pl.addParameter(Parameter(nm(j), x[j]));
   s.cur = x;
+  excludeIgnoredProbes(c, s, vector<bool>(static_cast<size_t>(n), true));
   s.w->setParameters(pl);
   Oracle o(s);
   // transparency
@@ -802,12 +865,8 @@ LAW(L5_narrow_geometry, RC, 6000, 300000, 260, "a selected variable named in the
   { vector<int> sub; for (int j = 0; j < n; ++j) if (j == first || !c.oneIn(4)) sub.push_back(j); g.sel = genOrder(c, sub); }
   g.cross = g.scheme == 1 && c.oneIn(6);
   vector<double> x0; for (int j = 0; j < n; ++j) x0.push_back(c.flag() ? genVal(c, g.box[j], g.h) : midOf(g.box[j]));
-  c.desc << g.show() << " start(";
-  for (int j = 0; j < n; ++j) c.desc << (j ? "," : "") << vf::dec(x0[j]);
-  c.desc << ")";
-  Sys s(g, x0);
-  bool nt = false;
   int nops = c.irange(1, 3);
+  vector<Upd> ops;
   for (int op = 0; op < nops; ++op) {
     Upd u;
     u.entry = static_cast<int>(c.weighted({3, 2, 2, 2, 2, 2}));
@@ -817,6 +876,17 @@ LAW(L5_narrow_geometry, RC, 6000, 300000, 260, "a selected variable named in the
     else for (int j = 0; j < n; ++j) if (u.entry == 1 || j == first || !c.oneIn(3)) sub.push_back(j);
     u.order = genOrder(c, sub);
     for (int j : u.order) u.val.push_back(genVal(c, g.box[j], g.h));
+    ops.push_back(u);
+  }
+  genPrec(c, g);   // after the draws of the history: committed replays decode unchanged
+  c.desc << g.show() << " start(";
+  for (int j = 0; j < n; ++j) c.desc << (j ? "," : "") << vf::dec(x0[j]);
+  c.desc << ")";
+  Sys s(g, x0);
+  bool nt = false;
+  for (int op = 0; op < nops; ++op) {
+    Upd& u = ops[static_cast<size_t>(op)];
+    for (size_t q = 0; q < u.order.size(); ++q) u.val[q] = onGrid(u.val[q], s.cur[static_cast<size_t>(u.order[q])], g.precOf(u.order[q]));
     c.desc << "; " << ENTRY[u.entry] << (u.withCons ? "" : "[plain]") << "(";
     for (size_t q = 0; q < u.order.size(); ++q) c.desc << (q ? "," : "") << "x" << u.order[q] << "=" << vf::dec(u.val[q]);
     c.desc << ")";
